@@ -3,7 +3,7 @@
    over every initial store [l] and over every history [ops] of the operations of Model.op
    (view reads and writes interleaved with T/P/phase/phases setters, link_with, unlink, copy_like,
    property-package reset and the reset_chemicals round trip).  [final] is the heap after the history. *)
-From V Require Import Common.NumFacts C11.Model C11.Proofs C11.ProofsDeep C11.ProofsCopy.
+From V Require Import Common.NumFacts C11.Model C11.Proofs C11.ProofsDeep C11.ProofsCopy C11.ModelProp C11.ProofsProp.
 
 (* the machine that is run against the implementation: the heap plus the state kept outside the indexers
    (Stream._flow_cache, the factor caches of the units objects, the per-stream property memo) *)
@@ -586,3 +586,73 @@ Proof.
   cbv zeta. split; [vm_compute; reflexivity|].
   do 4 eexists. repeat (split; [vm_compute; reflexivity|]). vm_compute. reflexivity.
 Qed.
+
+
+(* ====================================================================================
+   get_property / set_property of the flow totals (ModelProp.v): histories that also contain these two calls, so the
+   factor cache of a units object may be filled FIRST by either direction of conversion
+   ==================================================================================== *)
+Definition finalX Vf MWf pkgs utab (l : list init) (ops : list opx) : sstate :=
+  fst (runX Vf MWf pkgs utab (buildS l) ops).
+Lemma KInv_finalX Vf MWf pkgs utab l ops : KInv Vf pkgs utab (sk (finalX Vf MWf pkgs utab l ops)).
+Proof. exact (KInv_runX Vf MWf pkgs utab ops (buildS l) (KInv_buildS Vf pkgs utab l)). Qed.
+
+(* after EVERY such history (from cold caches), a conversion factor asked of a units object is what pint says for that
+   object and unit: it does not matter whether the unit was first used by conversion_factor/convert (reads, set_flow,
+   get_data ...) or by unconvert (set_property), and a unit of another dimension is still rejected *)
+Theorem C11_property_unit_caches_coherent : forall Vf MWf pkgs utab l ops,
+  let S := finalX Vf MWf pkgs utab l ops in
+  Inv Vf pkgs (s_heap S) /\
+  (forall w u, snd (convS utab S w u) = conv utab w u) /\
+  (forall u, snd (flow_lookup utab (ku (sk S)) u) = match unit_of utab u with Some x => Ok x | None => Err EDim end).
+Proof.
+  intros Vf MWf pkgs utab l ops S. pose proof (KInv_finalX Vf MWf pkgs utab l ops) as H. fold S in H.
+  split; [exact (proj1 H)|]. split.
+  - intros w u. exact (proj1 (convS_ok Vf pkgs utab S w u H)).
+  - intros u. exact (proj1 (flow_lookup_ok utab (ku (sk S)) u (proj1 (proj2 H)))).
+Qed.
+Print Assumptions C11_property_unit_caches_coherent.
+
+(* writing a total through set_property in unit u (factor f from the base unit of the view): after any history it IS the
+   F_mol / F_mass / F_vol setter called with v / f on a state with the same heap, property memo, index pointers and
+   phase-stream registry (only the factor cache may hold one more entry, and every layer's invariant still holds);
+   a unit of another dimension raises DimensionalityError and leaves all of that as it was *)
+Theorem C11_set_property_factor : forall Vf MWf pkgs utab l ops,
+  let S := finalX Vf MWf pkgs utab l ops in
+  forall i w u v,
+  (forall f, unit_of utab u = Some (w, f) ->
+     exists S1, same_but_factors S S1 /\ KInv Vf pkgs utab (sk S1) /\
+       stepX Vf MWf pkgs utab S (XSetProp i w u v) = stepS Vf MWf pkgs utab S1 (OSetF i w (v / f))) /\
+  ((forall f, unit_of utab u <> Some (w, f)) ->
+     snd (stepX Vf MWf pkgs utab S (XSetProp i w u v)) = XErr EDim /\
+     same_but_factors S (fst (stepX Vf MWf pkgs utab S (XSetProp i w u v)))).
+Proof.
+  intros Vf MWf pkgs utab l ops S i w u v.
+  exact (set_property_factor Vf MWf pkgs utab S i w u v (KInv_finalX Vf MWf pkgs utab l ops)).
+Qed.
+Print Assumptions C11_set_property_factor.
+
+(* reading a total through get_property in unit u: after any history it is the total (in the base unit) times the fixed
+   factor f of u, so two units of the same view always read in the ratio of their factors; another dimension raises *)
+Theorem C11_get_property_factor : forall Vf MWf pkgs utab l ops,
+  let S := finalX Vf MWf pkgs utab l ops in
+  forall i w u y, snd (stepS Vf MWf pkgs utab S (OTotal i w)) = XMat [[y]] ->
+  (forall f, unit_of utab u = Some (w, f) -> snd (stepX Vf MWf pkgs utab S (XGetProp i w u)) = XMat [[f * y]]) /\
+  ((forall f, unit_of utab u <> Some (w, f)) -> snd (stepX Vf MWf pkgs utab S (XGetProp i w u)) = XErr EDim) /\
+  same_but_factors (fst (stepS Vf MWf pkgs utab S (OTotal i w))) (fst (stepX Vf MWf pkgs utab S (XGetProp i w u))).
+Proof.
+  intros Vf MWf pkgs utab l ops S i w u y X.
+  exact (get_property_factor Vf MWf pkgs utab S i w u y (KInv_finalX Vf MWf pkgs utab l ops) X).
+Qed.
+Print Assumptions C11_get_property_factor.
+
+(* non-vacuity: a unit first used by set_property (cold cache), then read in the same and in another unit of the view *)
+Definition pU : list (option (view * Q)) := [Some (VMol, 1); Some (VMass, 1); Some (VMass, 2); Some (VVol, 1); Some (VVol, 4); None].
+Definition pOps : list opx :=
+  [XSetProp 0 VMass 2 8; XGetProp 0 VMass 2; XGetProp 0 VMass 1; XBase (OGetTotal 0 2); XSetProp 0 VVol 4 2;
+   XGetProp 0 VVol 3; XGetProp 0 VVol 1; XSetProp 0 VMol 5 1].
+Example C11_property_nonvacuous :
+  list_eqb outcome_eqb (snd (runX exV exMW pkgstub pU (buildS xL) pOps))
+    [XNone; XMat [[8]]; XMat [[4]]; XMat [[8]]; XNone; XMat [[1 # 2]]; XErr EDim; XErr EDim] = true
+  /\ u_fac (ku (sk (finalX exV exMW pkgstub pU xL pOps))) = [(VVol, 3%nat, 1); (VVol, 4%nat, 4); (VMass, 1%nat, 1); (VMass, 2%nat, 2)].
+Proof. split; vm_compute; reflexivity. Qed.
